@@ -104,7 +104,9 @@ Limit(e) ==
        IN /\ viol' = viol \o Chk(best, "LimitOK") \o Chk(Canonical(e.out), "Canonical")
           /\ drift' = (IF e.out = PLimit(p, e.m) THEN drift ELSE Append(drift, <<l, "LimitDenImpl">>)) \o RegDrift(e)
           /\ reg' = [reg EXCEPT ![e.r] = e.out]
-          /\ stats' = [stats EXCEPT !.limits = @ + 1, !.limit_bad = @ + B2I(~best), !.limit_approx = @ + B2I(approx), !.nontrivial = @ + B2I(approx),
+          \* limit_bad feeds the cross-check against CPython's Fraction (bin/plan_C16.py), which only looks at canonical operands
+          \* (a non-canonical register is the after-effect of an earlier violation)
+          /\ stats' = [stats EXCEPT !.limits = @ + 1, !.limit_bad = @ + B2I(~best /\ Canonical(p)), !.limit_approx = @ + B2I(approx), !.nontrivial = @ + B2I(approx),
                                     !.limit_ties = @ + B2I(approx /\ LimitIsTie(LimitDenImpl(p, e.m), p, e.m))]
 Preds(e) ==
   IF e.res # "ok" THEN Failed(e)
